@@ -1,6 +1,8 @@
 import KrillModel.Drivers.Queue
+import KrillModel.Drivers.AggStore
 
 def main (args : List String) : IO UInt32 := do
   match args with
   | ["queue"] => KM.Drv.Queue.main; return 0
+  | ["aggstore"] => KM.Drv.AggStore.main; return 0
   | _ => IO.eprintln "usage: kmodel <stream>"; return 2
